@@ -122,15 +122,82 @@ def jtext(rng, v, ws):
     return v[1]
 
 
+# ---- requests for the peers' main loops (c09.client / c09.server) ----
+def pb_int(field, v):
+    return varint(field << 3) + varint(v)
+
+
+def pb_str(field, b):
+    return varint((field << 3) | 2) + varint(len(b)) + b
+
+
+SERVICE = "connectrpc.conformance.v1.ConformanceService"
+
+
+def client_req(name, shape, use_json, rng):
+    """one ClientCompatRequest in the wire variant, as (message bytes, test name).  Every shape is
+    answered at once: 0 names no HTTP version (error result), 1 a unary call to 127.0.0.1:1, a closed
+    port (connection refused), 2 as 0 with another protocol field; JSON shapes vary the spacing
+    (3 = the multi-line form protojson itself writes)."""
+    n = name.encode()
+    if not use_json:
+        if shape == 1:
+            m = (pb_str(1, n) + pb_int(2, 1) + pb_int(3, 1) + pb_int(4, 1) + pb_str(6, b"127.0.0.1") + pb_int(7, 1) +
+                 pb_str(11, SERVICE.encode()) + pb_str(12, b"Unary") + pb_int(13, 1))
+        elif shape == 2:
+            m = pb_str(1, n) + pb_int(3, rng.choice([1, 2, 3]))
+        else:
+            m = pb_str(1, n) if n else b""
+        return m, n
+    if shape == 1:
+        t = ('{"testName":"%s","httpVersion":"HTTP_VERSION_1","protocol":"PROTOCOL_CONNECT","codec":"CODEC_PROTO",'
+             '"host":"127.0.0.1","port":1,"service":"%s","method":"Unary","streamType":"STREAM_TYPE_UNARY"}' % (name, SERVICE))
+    elif shape == 2:
+        t = '{"testName": "%s", "protocol": %d}' % (name, rng.choice([1, 2, 3]))
+    elif shape == 3:
+        t = '{\n  "testName": "%s",\n  "codec": "CODEC_JSON"\n}' % name
+    else:
+        t = '{"testName":"%s"}' % name if name else rng.choice(["{}", "{ }"])
+    return t.encode(), n
+
+
+def peer_stream(msgs, use_json, rng=None):
+    if use_json:
+        return b"".join(m + (b"\n" if rng is None else rng.choice([b"\n", b"\n", b"\n\n", b" \n", b"\r\n"])) for m in msgs)
+    return stream(msgs)
+
+
+def peer_bounds(msgs, use_json):
+    out, p = [], 0
+    for m in msgs:
+        p += len(m) + (1 if use_json else 4)
+        out.append(p)
+    return out
+
+
+def server_req(ver, limit, use_json, style=0):
+    """one ServerCompatRequest and the fields that a probe of the server it starts can see: [http_version, limit]"""
+    obs = [ver, limit]
+    if not use_json:
+        return pb_int(1, 1) + pb_int(2, ver) + (pb_int(6, limit) if limit else b""), obs
+    if style == 0:
+        t = '{"httpVersion":%d%s}' % (ver, ',"messageReceiveLimit":%d' % limit if limit else "")
+    else:
+        t = '{\n  "protocol": "PROTOCOL_CONNECT",\n  "httpVersion": "HTTP_VERSION_%d",\n  "messageReceiveLimit": %d\n}' % (ver, limit)
+    return t.encode(), obs
+
+
 class C09(Prop):
     id = "C09"
     props = "C09_Props"
-    coq_files = ("Base", "C09_Consts", "C09_Model", "C09_Spec", "C09_Proofs", "C09_ProofsW", "C09_ProofsJ", "C09_ProofsS", "C09_ProofsC", "C09_Props")
+    coq_files = ("Base", "C09_Consts", "C09_Model", "C09_Spec", "C09_Proofs", "C09_ProofsW", "C09_ProofsJ", "C09_ProofsS", "C09_ProofsC", "C09_ProofsL", "C09_Props")
     models = ("C09_Model",)
     consts = ("int", "cc")
-    packages = {"int": "internal", "cc": "internal/app/connectconformance"}
+    packages = {"int": "internal", "cc": "internal/app/connectconformance",
+                "rc": "internal/app/referenceclient", "rs": "internal/app/referenceserver"}
     kinds = {"c09.raw": "int", "c09.read": "int", "c09.stalls": "int", "c09.stall": "int", "c09.dec": "int", "c09.write": "int",
-             "c09.json": "int", "c09.jsonrt": "int", "c09.wsink": "int", "c09.pipe": "int", "c09.jsonwrite": "int"}
+             "c09.json": "int", "c09.jsonrt": "int", "c09.wsink": "int", "c09.pipe": "int", "c09.jsonwrite": "int",
+             "c09.client": "rc", "c09.server": "rs"}
     rule = ("scripted io.Reader (data, read schedule, error-with-last-data flag, tail = EOF | other error | block for ever) driven through "
             "readDelimitedMessageRaw (c09.raw), ReadDelimitedMessage (c09.read), codec.NewDecoder(..).DecodeNext binary (c09.dec) and JSON "
             "(c09.json, c09.jsonrt) until the first error: ALL compositions into reads of every small stream (<= 12 bytes quick, <= 14 thorough) "
@@ -146,7 +213,17 @@ class C09(Prop):
             "either keeps failing or works again, every failure point of small streams (c09.wsink), encode -> pipe -> decode in both directions "
             "with the writer failing anywhere (c09.pipe), jsonEncoder.Encode incl. the dropped newline error (c09.jsonwrite). Compared: message "
             "bytes, error kind, unread byte count, the three counts of a timeout (unit, received, expected - parsed out of the error as numbers), "
-            "bytes on the wire, number of successful Encode calls. non-trivial = at least one message delivered or an error other than a clean end")
+            "bytes on the wire, number of successful Encode calls. The peers' MAIN LOOPS with a scripted stdin (one chunk per Read, never more) and "
+            "captured stdout, --json and binary: referenceclient Run / RunInReferenceMode (c09.client, ~1070 quick) - three requests in ONE read, "
+            "split at every byte, byte by byte, at the message boundaries, two-then-one, three-part splits on a grid, every cut of the stream, "
+            "mixed request shapes (immediate error result, refused connection to 127.0.0.1:1, multi-line JSON, empty and repeated requests), "
+            "random streams x random partitions; -p 1: the responses' test names compared as a SEQUENCE (the code serialises them), -p 4/16: as a "
+            "multiset; plus how Run returned (nil / unexpected EOF / I/O error). referenceserver Run / RunInReferenceMode (c09.server, ~235 quick, "
+            "evaluated concurrently): its one ServerCompatRequest split at every byte / byte by byte / with bytes behind it / random partitions, "
+            "stdin then staying open (blocking) or ending; observed: the ServerCompatResponse names a port and a probe of that port finds the "
+            "http_version (h2c prior knowledge accepted or not) and message_receive_limit (300-byte unary request refused or served) of the request "
+            "sent; every truncation gives an error exit (or, with stdin kept open, a server waiting in Read), never an answer. "
+            "non-trivial = at least one message delivered or an error other than a clean end")
     trusted_base = ("Coq 8.16.1 kernel", "extraction (ExtrOcamlBasic only) + ocaml/driver.ml",
                     "vlib generators/comparator, Go overlay harness incl. the scripted reader and writer (same semantics as C09_Model.src_read / sink_write)",
                     "modelled not verified: proto.Marshal/Unmarshal, protojson, the goroutine/timer of the timeout path, "
@@ -170,6 +247,9 @@ class C09(Prop):
                   "encode -> decode gives back the first k messages unchanged with a clean end iff the failure fell between frames (both directions). "
                   "JSON variant (round trip, every cut point, every ending, failing writer, schedule independence for every byte string) proved "
                   "relative to an oracle for encoding/json's scanner; unconditional for the bracket scanner the model is run with. "
+                  "The peers' main loops (decoder created once per stream, DecodeNext until EOF; the server's single DecodeNext) answer exactly the "
+                  "sequence sent for every chunking in both variants, derived from the decoders' chunking theorems; a decoder re-created per request "
+                  "is proved to lose every request but the first whenever one read delivers a whole JSON stream. "
                   "The model is tied to the Go code by a bounded-exhaustive plus random differential run on every check.")
     level_note = ("Trusted: Coq kernel, extraction, OCaml driver, harness and scripted reader/writer; model-to-code correspondence is sampled "
                   "(all read compositions of streams <= 12/14 bytes, every writer failure point of small streams), not proved. The timer/goroutine "
@@ -179,7 +259,10 @@ class C09(Prop):
                   "within half the timeout of the call's start, otherwise the case is repeated with 4 x the timeout (slow machine). 'Before allocating' is a theorem about the model's buffer list and, on "
                   "the Go side, the largest buffer handed to Read plus a TotalAlloc probe for oversize announcements >= 2 MiB above what was received. "
                   "protoDecoder has no size limit at all (reference peers trust the runner): the limit clause is about ReadDelimitedMessage. "
-                  "Theorems named *_partial are relative to the JSON scanner oracle.")
+                  "Theorems named *_partial are relative to the JSON scanner oracle. Main loops: what a request DOES (the RPC) is outside the model - "
+                  "a decoded request is projected to its test name / to the started server's http version and receive limit through a table the "
+                  "case carries (the harness checks every table entry against the message unmarshalled on its own); a client whose stdin stays "
+                  "open (the loop waiting for more) is not driven, the server's is.")
     technique = "Coq proof by induction on the read loop (closed form independent of the schedule); differential model-vs-Go correspondence"
     go_timeout = 600
 
@@ -428,6 +511,117 @@ class C09(Prop):
         for _ in range(300 if quick else 6000):
             vals = [jtext(rng, jtop(rng), False).encode() for _ in range(rng.randint(0, 4))]
             yield ["c09.jsonwrite", vals, rng.choice([-1, -1, 0, 1, 2])]
+
+        # 8. the peers' MAIN LOOPS: referenceclient Run / RunInReferenceMode and referenceserver Run /
+        #    RunInReferenceMode with a scripted stdin, both wire variants
+        for c in self.loop_cases(rng, quick):
+            yield c
+
+    def loop_cases(self, rng, quick):
+        """["c09.client", json, p, ref, data, sched, eager, tail, table] and
+        ["c09.server", json, ref, data, sched, eager, tail, table]"""
+        def table_of(pairs):
+            seen, out = set(), []
+            for m, n in pairs:
+                if m not in seen:
+                    seen.add(m)
+                    out.append([m, n])
+            return out
+
+        def client(use_json, pairs, data, sched, p=1, eager=None, tail=EOF):
+            return ["c09.client", use_json, p, rng.randrange(2), data, sched,
+                    rng.random() < 0.5 if eager is None else eager, tail, table_of(pairs)]
+
+        for use_json in (0, 1):
+            # a. THREE requests: in one read; split at every byte; byte by byte; at the message boundaries;
+            #    two then one; one then two; every three-part split on a coarse grid; p = 1 (sequence) and 4 (multiset)
+            pairs = [client_req(n, 0, use_json, rng) for n in ("s/a", "s/b", "s/c")]
+            msgs = [m for m, _ in pairs]
+            data = peer_stream(msgs, use_json)
+            b = peer_bounds(msgs, use_json)
+            fixed = [[], [1] * len(data), [b[0], b[1] - b[0]], [b[1]], [b[0]], [b[1], len(data)], [len(data)], [len(data) + 5]]
+            for sch in fixed:
+                for eager in (False, True):
+                    yield client(use_json, pairs, data, sch, 1, eager)
+                yield client(use_json, pairs, data, sch, 4)
+            for k in range(1, len(data)):
+                yield client(use_json, pairs, data, [k], 1)
+                if k % 3 == 0:
+                    yield client(use_json, pairs, data, [k], 4)
+                    yield client(use_json, pairs, data, [k, 1], 1)          # ... then one byte, then the rest
+            step = 3 if quick else 1
+            for i in range(1, len(data), step):
+                for j in range(i + 1, len(data), step):
+                    yield client(use_json, pairs, data, [i, j - i], 1)
+            # b. stdin ends inside / in front of / behind a request: every cut of the same stream
+            for cut in range(len(data)):
+                for sch in ([], [1] * cut, rand_sched(rng, cut, b)):
+                    yield client(use_json, pairs, data[:cut], sch, 1, None, rng.choice([EOF, EOF, FAIL]))
+            # c. mixed shapes (a refused connection, multi-line JSON, an empty message, a repeated request)
+            names = ["m/1", "m/{2}", "", "m/4 ]", "m/1", "m/5"]
+            shapes = [1, 3, 0, 2, 1, 0]
+            pairs = []
+            for n, sh in zip(names, shapes):
+                if pairs and n == "m/1":
+                    pairs.append(pairs[0])
+                else:
+                    pairs.append(client_req(n, sh, use_json, rng))
+            msgs = [m for m, _ in pairs]
+            data = peer_stream(msgs, use_json)
+            b = peer_bounds(msgs, use_json)
+            per = [b[0]] + [b[i] - b[i - 1] for i in range(1, len(b))]
+            for sch in ([], [1] * len(data), per, [b[2], b[4] - b[2]], [b[3]]):
+                yield client(use_json, pairs, data, sch, 1)
+                yield client(use_json, pairs, data, sch, 4)
+            for _ in range(40 if quick else 400):
+                k = rng.randrange(1, len(data))
+                yield client(use_json, pairs, data, [k] if rng.random() < 0.5 else rand_sched(rng, len(data), b), rng.choice([1, 1, 4]))
+            # d. random streams, random partitions (zero-length reads included), 30 % cut somewhere
+            for _ in range(150 if quick else 6000):
+                n = rng.choice([0, 1, 2, 3, 3, 4, 6])
+                pairs = [client_req("r/%d" % rng.randrange(5), rng.choice([0, 0, 2, 3, 1]), use_json, rng) for _ in range(n)]
+                # the same name always with the same message (the table projects a message to its name)
+                byname = {}
+                pairs = [byname.setdefault(nm, (m, nm)) for m, nm in pairs]
+                msgs = [m for m, _ in pairs]
+                data = peer_stream(msgs, use_json, rng)
+                tail = EOF
+                if data and rng.random() < 0.3:
+                    data = data[:rng.randrange(len(data))]
+                    tail = rng.choice([EOF, EOF, FAIL])
+                sch = rand_sched(rng, len(data), peer_bounds(msgs, use_json))
+                yield client(use_json, pairs, data, sch, rng.choice([1, 1, 1, 4, 16]), None, tail)
+
+            # e. the reference server reads ONE request: split at every byte, byte by byte, one read, with
+            #    bytes behind it, random partitions; every truncation (an error exit, not a wait)
+            #    The runner keeps the server's stdin open while it runs: behind a complete request the pipe mostly
+            #    BLOCKs (a server that reads on never answers), sometimes ends.
+            def server(m, obs, data, sched, eager=None, tail=None):
+                if tail is None:
+                    tail = rng.choice([BLOCK, BLOCK, EOF])
+                return ["c09.server", use_json, rng.randrange(2), data, sched,
+                        rng.random() < 0.5 if eager is None else eager, tail, [[m, obs]]]
+            variants = [(1, 0), (2, 64), (2, 0), (1, 64)]
+            m, obs = server_req(2, 64, use_json)
+            data = peer_stream([m], use_json)
+            for i, k in enumerate(range(1, len(data))):
+                ver, limit = (2, 64) if i % 2 else (1, 64)       # same length: every byte position is a split point
+                m, obs = server_req(ver, limit, use_json)
+                yield server(m, obs, peer_stream([m], use_json), [k])
+            for i, (ver, limit) in enumerate(variants):
+                m, obs = server_req(ver, limit, use_json, i % 2)
+                data = peer_stream([m], use_json)
+                for sch in ([], [1] * len(data), [len(data) - 1], rand_sched(rng, len(data))):
+                    yield server(m, obs, data, sch, bool(i % 2))
+                m2, _ = server_req(1, 5, use_json)
+                yield server(m, obs, data + peer_stream([m2], use_json), rng.choice([[], [len(data) + 2], rand_sched(rng, len(data) + 4)]))
+                yield server(m, obs, data + (b"]}" if use_json else b"\xff\xff"), [])
+                for _ in range(3 if quick else 30):
+                    yield server(m, obs, data, rand_sched(rng, len(data)))
+            m, obs = server_req(2, 64, use_json, 1)
+            data = peer_stream([m], use_json)
+            for cut in range(len(data) - (1 if use_json else 0)):
+                yield server(m, obs, data[:cut], rng.choice([[], [1] * cut, rand_sched(rng, cut)]), None, rng.choice([EOF, EOF, EOF, FAIL, BLOCK]))
 
 
 PROP = C09()
